@@ -2,7 +2,12 @@
 
 package verifv2
 
-import "github.com/onosproject/onos-config/internal/verifrt"
+import (
+	"fmt"
+	"os"
+
+	"github.com/onosproject/onos-config/internal/verifrt"
+)
 
 // VerifStepEntry: arbitrary state, one arbitrary step. The engine reads the transition relation off S before/after,
 // the named predicates (Region) are the state predicates used by the bounded model checker, the assertions are the
@@ -32,6 +37,9 @@ func VerifRun() {
 		Step(choice)
 		StepContracts(&pre, choice)
 		StatePredicates("")
+		if !verifrt.Symbolic() && os.Getenv("VERIF_DUMP") != "" {
+			fmt.Printf("VERIF-DUMP step %d choice %d params %+v\n  txs %+v\n  props %+v\n  cfgs %+v\n  devs %+v\n  work %+v\n", k+1, choice, P, S.Txs, S.Props, S.Configs, S.Devs, S.W)
+		}
 	}
 	// fixed-point probe: no reconcile (fault free, crash free) changes the final state
 	if verifrt.NondetBool("probe") {
